@@ -105,6 +105,17 @@ def lazy_caches(ctx: Ctx, cls: ClassInfo) -> Dict[str, Cache]:
                     seen.add(id(e.node))
                     c.recompute_sites.append((e.func, e.node))
                 c.deps |= _fields_of_self(e.d['value'], selfk) - {fld}
+                # a cached value computed from an *argument* of the routine that happens to fill it first depends on
+                # the history of calls, not on the object's configuration
+                if e.func is f:
+                    args_in = sorted({a[1] for a in C.atoms_deep(e.d['value'])
+                                      if isinstance(a, tuple) and len(a) == 2 and a[0] == 'var' and
+                                      isinstance(a[1], str) and a[1] in f.param_names[1:]})
+                    if args_in and (id(e.node), 'arg') not in seen:
+                        seen.add((id(e.node), 'arg'))
+                        c.problems.append({'writer': f, 'node': e.node, 'entry': f,
+                                           'field': 'the argument ' + ', '.join(args_in) + ' of the call that fills it first',
+                                           'kind': 'argument'})
             for (f, p, e, selfk) in recs:
                 if _is_none(e.d['value']) and id(e.node) not in seen:
                     seen.add(id(e.node))
@@ -219,6 +230,12 @@ def report_used(ctx: Ctx):
             continue
         for pr in c.problems:
             w = pr['writer']
+            if pr.get('kind') == 'argument':
+                ctx.fail(rid, w.short, w.loc(pr['node']),
+                         f'the lazily cached attribute {cls.name}.{c.name} is computed from {pr["field"]}: what later '
+                         f'calls see depends on which call came first, not on the configuration of the object',
+                         key=f'{rid}::{w.short}::history-cache::{c.name}')
+                continue
             ctx.fail(rid, w.short, w.loc(pr['node']),
                      f'{w.short} changes {pr["field"]}, on which the lazily cached attribute {cls.name}.{c.name} '
                      f'depends, without invalidating or recomputing it: later computations use a stale value',
@@ -268,6 +285,12 @@ def report_incoherent(ctx: Ctx, rid: str, cls: ClassInfo, roots: Optional[List[F
             continue
         for pr in c.problems:
             w = pr['writer']
+            if pr.get('kind') == 'argument':
+                ctx.fail(rid, w.short, w.loc(pr['node']),
+                         f'the lazily cached attribute {c.name} is computed from {pr["field"]}: what later calls see '
+                         f'depends on which call came first, not on the configuration of the object: {consequence}',
+                         key=f'{rid}::{w.short}::history-cache::{c.name}')
+                continue
             ctx.fail(rid, w.short, w.loc(pr['node']),
                      f'{w.short} changes {pr["field"]}, on which the lazily cached attribute {c.name} depends '
                      f'(through {sorted(c.all_deps)}), without invalidating or recomputing it: {consequence}',
